@@ -1,3 +1,76 @@
-import Mwp.Spec.Calculus
+/-
+  C12 — Spec-level invariances: the calculus does not see spelling.  `+` and `-` have the same
+  rule, `do … while` is `while`, the empty statement is `skip`; a `skip` inside a sequence and a
+  singleton sequence change nothing; an injective renaming of the variables leaves every derived
+  matrix unchanged.  Helper lemmas: Mwp/Lemmas/Misc12.lean (`Good`: every matrix `sem` returns is
+  `|U| × |U|` and free of ∞, so the identity matrix is a unit for it; `Cmd.rename`).
+-/
+import Mwp.Lemmas.Misc12
 namespace Mwp.Props.C12
+open Mwp Mwp.Spec Mwp.Misc12
+
+theorem plus_minus_same (a b : Atom) (alt : Nat) (v : Var) :
+    operandFlow "+" a b alt v = operandFlow "-" a b alt v := by
+  cases a <;> cases b <;> rfl
+
+theorem do_while_is_while (c b : Node) : desugar (.doWhile c b) = desugar (.while_ c b) := by
+  rw [desugar, desugar]
+
+theorem empty_statement_is_skip : desugar .empty = some .skip := by
+  rw [desugar]
+
+/-- every matrix the calculus derives is `|U| × |U|` and contains no ∞ -/
+theorem sem_square_no_infty (U : List Var) (cmd : Cmd) (idx : Nat) (c : Choice) (i : Nat) (M : SMat)
+    (h : sem U cmd idx c = some (i, M)) :
+    M.length = U.length ∧ ∀ row ∈ M, row.length = U.length ∧ ∀ s ∈ row, s ≠ Scalar.i :=
+  sem_good U cmd idx c i M h
+
+/-- redundant braces / empty statements: a skip inside a sequence changes nothing -/
+theorem sem_seq_skip (U : List Var) (l1 l2 : List Cmd) (idx : Nat) (c : Choice) :
+    sem U (.seq (l1 ++ .skip :: l2)) idx c = sem U (.seq (l1 ++ l2)) idx c := by
+  rw [sem, sem]
+  exact semSeq_skip_mid U l1 l2 idx c
+
+/-- a singleton sequence is its element -/
+theorem sem_seq_singleton (U : List Var) (cmd : Cmd) (idx : Nat) (c : Choice) :
+    sem U (.seq [cmd]) idx c = sem U cmd idx c := by
+  rw [sem]
+  exact semSeq_singleton U cmd idx c
+
+/-- injective renaming of variables: same matrices (the dense matrix is indexed by position in
+    `U`).  No further hypothesis: `U` may have duplicates and need not contain the command's
+    variables. -/
+theorem sem_rename (ρ : String → String) (hρ : Function.Injective ρ) (U : List Var) (cmd : Cmd)
+    (idx : Nat) (c : Choice) :
+    sem (U.map ρ) (cmd.rename ρ) idx c = sem U cmd idx c :=
+  sem_rename_aux ρ hρ U cmd idx c
+
+/-! ## non-vacuity -/
+
+-- the shared rule of `+`/`-` is not constant
+example : operandFlow "+" (.var "y") (.var "z") 0 "z" = .p ∧ operandFlow "-" (.var "y") (.var "z") 1 "z" = .m := by
+  decide
+example : desugar (.doWhile (.id "c") (.assign "=" (.id "x") (.id "y"))) = some (.while_ (.asgnVar "x" "y")) := by
+  simp [desugar, Node.rmCast]
+-- a derivation that succeeds, with a skip in the middle / as a singleton
+example : sem ["x", "y"] (.seq ([.bin "+" "x" (.var "x") (.var "y")] ++ .skip :: [.asgnVar "y" "x"])) 0 [1]
+    = some (1, [[.p, .p], [.m, .m]]) := by decide
+example : sem ["x", "y"] (.seq [.while_ (.asgnVar "x" "y")]) 0 [] = some (0, [[.m, .o], [.m, .m]]) := by
+  decide
+-- an injective renaming (swap `x` and `y`), on a command whose matrix is not symmetric
+private def swapXY (s : String) : String := if s = "x" then "y" else if s = "y" then "x" else s
+example : Function.Injective swapXY := by
+  have inv : ∀ s, swapXY (swapXY s) = s := by
+    intro s
+    unfold swapXY
+    by_cases h1 : s = "x"
+    · subst h1; decide
+    · by_cases h2 : s = "y"
+      · subst h2; decide
+      · simp [h1, h2]
+  intro a b h
+  rw [← inv a, ← inv b, h]
+example : sem (["x", "y"].map swapXY) ((Cmd.bin "+" "x" (.var "x") (.var "y")).rename swapXY) 0 [0]
+    = some (1, [[.m, .o], [.p, .m]]) := by decide
+
 end Mwp.Props.C12
